@@ -14,7 +14,10 @@ from harness.common import rat, lean_int, lean_list, corpus_cases
 
 PID = 'C04'
 KEYS_MOD = 'NoteSeqVerif.Props.C04_keys'
-MODULES = [KEYS_MOD, 'NoteSeqVerif.Props.C04']
+FLOAT_MOD = 'NoteSeqVerif.Props.C04_float'
+REP_MOD = 'NoteSeqVerif.Props.C04_repeats'
+EVT_MOD = 'NoteSeqVerif.Props.C04_events'
+MODULES = [KEYS_MOD, FLOAT_MOD, REP_MOD, EVT_MOD, 'NoteSeqVerif.Props.C04']
 EXE = 'drv_c04'
 THEOREMS = [
     (KEYS_MOD, 'NSV.C04.abc_key_table_total'), (KEYS_MOD, 'NSV.C04.abc_key_table_rows'),
@@ -24,6 +27,18 @@ THEOREMS = [
     'NSV.C04.abc_onsets_exact', 'NSV.C04.abc_broken_rhythm', 'NSV.C04.abc_header',
     'NSV.C04.abc_isolation', 'NSV.C04.abc_isolation_book', 'NSV.C04.abc_repeat_errors',
     'NSV.C04.abc_repeats_expansion', 'NSV.C04.abc_repeats_no_groups', 'NSV.C04.abc_repeats',
+    # float layer (any rounding operator R with the facts of Proofs/Rounding.lean; rne53 is one)
+    (FLOAT_MOD, 'NSV.C04.abc_float_note'), (FLOAT_MOD, 'NSV.C04.abc_float_order'),
+    (FLOAT_MOD, 'NSV.C04.abc_float_onsets_near'), (FLOAT_MOD, 'NSV.C04.abc_float_onsets'),
+    (FLOAT_MOD, 'NSV.C04.abc_float_exact_dyadic'), (FLOAT_MOD, 'NSV.C04.abc_float_header'),
+    (FLOAT_MOD, 'NSV.C04.abc_float_default_unit'), (FLOAT_MOD, 'NSV.C04.abc_float_broken'),
+    # repeats with broken rhythm, expanded onsets, the degenerate backward repeat
+    (REP_MOD, 'NSV.C04.abc_repeats_broken'), (REP_MOD, 'NSV.C04.abc_repeats_general'),
+    (REP_MOD, 'NSV.C04.abc_quirk_only_degenerate'), (REP_MOD, 'NSV.C04.abc_degenerate_repeat'),
+    (REP_MOD, 'NSV.C04.abc_degenerate_repeat_at_zero'), (REP_MOD, 'NSV.C04.abc_broken_across_section_fails'),
+    # the non-note containers of expand_section_groups, per section copy (C02's extract + C13's concatenate)
+    (EVT_MOD, 'NSV.C04.abc_expand_events'), (EVT_MOD, 'NSV.C04.abc_expand_events_parsed'),
+    (EVT_MOD, 'NSV.C04.abc_expand_models_agree'),
 ]
 
 
@@ -420,16 +435,23 @@ def canon_tune(sl, ns):
     def notes(seq):
         return '%d %s' % (len(seq), ' '.join('%d %d %s %s' % (n.pitch, n.velocity, rat(n.start_time), rat(n.end_time)) for n in seq)) \
             if len(seq) else '0 '
-    try:
-        e = sl.expand_section_groups(ns)
-        exp = 'ok ' + notes(e.notes)
-    except Exception as ex:  # pylint: disable=broad-except
-        exp = 'err ' + type(ex).__name__
-    md = ns.sequence_metadata
-
     def lst(items):
         items = list(items)
         return ('%d %s' % (len(items), ' '.join(items))) if items else '0 '
+    try:
+        e = sl.expand_section_groups(ns)
+        exp = 'ok ' + notes(e.notes)
+        # every other container of the expansion (model: Model/C04Full.lean = C02's extract + C13's concatenate)
+        expall = ' '.join(['ok', rat(e.total_time), str(len(e.notes)),
+                           'tempos', lst('%s %s' % (rat(t.time), rat(t.qpm)) for t in e.tempos),
+                           'ts', lst('%s %d %d' % (rat(t.time), t.numerator, t.denominator) for t in e.time_signatures),
+                           'ks', lst('%s %d %d' % (rat(t.time), t.key, t.mode) for t in e.key_signatures),
+                           'ta', lst('%s %d %s' % (rat(t.time), t.annotation_type, hx(t.text)) for t in e.text_annotations),
+                           'sa', lst('%s %d' % (rat(t.time), t.section_id) for t in e.section_annotations)])
+    except Exception as ex:  # pylint: disable=broad-except
+        exp = 'err ' + type(ex).__name__
+        expall = 'err ' + type(ex).__name__
+    md = ns.sequence_metadata
     parts = [str(ns.reference_number), 'notes', notes(ns.notes),
              'tempos', lst('%s %s' % (rat(t.time), rat(t.qpm)) for t in ns.tempos),
              'ts', lst('%s %d %d' % (rat(t.time), t.numerator, t.denominator) for t in ns.time_signatures),
@@ -438,7 +460,7 @@ def canon_tune(sl, ns):
              'sg', lst('%d %d' % (g.sections[0].section_id, g.num_times) for g in ns.section_groups),
              'ta', lst('%s %d %s' % (rat(t.time), t.annotation_type, hx(t.text)) for t in ns.text_annotations),
              'total', rat(ns.total_time), 'title', hx(md.title), 'comp', lst(hx(c) for c in md.composers),
-             'artist', hx(md.artist), 'exp', exp]
+             'artist', hx(md.artist), 'exp', exp, 'expall', expall]
     return ' '.join(parts)
 
 
@@ -772,6 +794,32 @@ class Gen:
                 self.hist.add('body-field:' + f[0])
                 out.append(('F', f, ''))
         return out
+
+    def across_bar_tune(self, ref):
+        """the class of known finding F-C04-6: a balanced tune in which one broken-rhythm pair has a bar token
+        between its two notes (before or after the marker): a plain bar (harmless), a double bar, `|:`, `:|`,
+        `::` / `:|:` — with notes before / after, same length form for the pair, no field between its notes."""
+        rng = self.rng
+        lf = rng.choice(LEN_FORMS[:14])
+        pool = rng.sample('ABCDEFG', 3)
+        n1, n2 = self.note(pool, lf), self.note(pool, lf)
+        br = ('BR', rng.random() < 0.5, rng.choice([1, 1, 2, 3]))
+        some = lambda lo, hi: [self.note(pool) for _ in range(rng.randrange(lo, hi + 1))]
+        kind = rng.choice(['plain', 'double', 'forward', 'backward', 'both', 'both-colons'])
+        cnt = rng.choice([1, 1, 2])            # colons of the repeat (:| = 1 -> played twice)
+        bar = {'plain': ('B', 0, '|', 0), 'double': ('B', 0, rng.choice(['||', '|]', '[|']), 0), 'forward': ('B', 0, '|', cnt),
+               'backward': ('B', cnt, '|', 0), 'both': ('B', cnt, '|', cnt), 'both-colons': ('CO', 2 * cnt)}[kind]
+        mid = [br, bar] if rng.random() < 0.5 else [bar, br]
+        toks = []
+        if kind in ('backward', 'both', 'both-colons'):
+            toks += some(0, 2) + ([('B', 0, '|', cnt)] if rng.random() < 0.7 or cnt > 1 else []) + some(0, 3)
+        else:
+            toks += some(0, 3)
+        toks += [n1] + mid + [n2] + some(0, 3)
+        if kind in ('forward', 'both', 'both-colons'):
+            toks += [('B', cnt, '|', 0)] + some(0, 2)
+        self.hist.add('across:' + kind + ('/marker-first' if mid[0] is br else '/bar-first'))
+        return self.header(ref, ()) + [('M', toks)]
 
     def file_header(self):
         rng = self.rng
@@ -1300,6 +1348,8 @@ def make_book(g, stream):
                 tags.append('unsupported:' + kind)
             else:
                 secs.append(g.tune(ref, skip))
+        elif stream == 'across-bar':
+            secs.append(g.across_bar_tune(ref))
         elif stream == 'repeat-errors':
             if rng.random() < 0.6:
                 lines, how = unbalance(g, g.tune(ref, skip, budget=rng.choice([6, 15, 30]), repeats=rng.random() < 0.3))
@@ -1337,17 +1387,61 @@ def key_books(g, thorough):
 
 
 # ============================================================================= run / replay
+KNOWN_ACROSS = 'F-C04-6'
+
+
+def broken_across_bar(sections):
+    """the class of known finding F-C04-6, read off the token lists (the Python reading of `brokenOK = false`
+    restricted to a completed pair): some broken-rhythm token has a first note before it and a second note
+    after it on the marker's music line, and a bar token of any kind (B or CO) stands between those two notes."""
+    for sec in sections:
+        have_note = False      # a note has been read in this tune
+        bar_since = False      # a bar token since the last note
+        for ln in sec:
+            if ln[0] != 'M':
+                continue
+            pending = None     # `broken_rhythm` is local to the music line; [a bar between the two notes so far]
+            for t in ln[1]:
+                kd = t[0]
+                if kd == 'N':
+                    if pending is not None and pending[0]:
+                        return True
+                    pending = None
+                    have_note, bar_since = True, False
+                elif kd in ('B', 'CO'):
+                    bar_since = True
+                    if pending is not None:
+                        pending[0] = True
+                elif kd == 'BR':
+                    if pending is None and have_note:
+                        pending = [bar_since]
+    return False
+
+
+def known_kind(r):
+    """the failure kinds F-C04-6 produces: the expansion differs from the played order / a note clipped at a section end"""
+    return fail_kind(r) in ('expanded pitch order', 'expanded note')
+
+
 def judge(chk, ap, sl, music_pb2, stream, sections, text, tags):
-    """oracle on one book; records a failure of the property on the real code"""
+    """oracle on one book; records a failure of the property on the real code.  A failure is attributed to
+    the open known finding F-C04-6 only if the input is in exactly its class AND the failure is of its kind;
+    everything else (in particular any input whose broken-rhythm pairs lie inside a bar) is a plain failure."""
     r, otags = o_book(ap, sl, music_pb2, sections, text)
     for t in otags:
         chk.count('oracle:' + stream, None, hist=t)
     if not otags:
         chk.count('oracle:' + stream, None)
     if r:
-        if len(chk.failures) < 5:
+        if broken_across_bar(sections) and known_kind(r):
+            chk.count('oracle:' + stream, None, hist='known:' + KNOWN_ACROSS)
+            chk.fail(r, {'stream': stream, 'text': text, 'sections': sections}, finding=KNOWN_ACROSS)
+            return r
+        if sum(1 for f in chk.failures if f['finding'] is None) < 5:
             sections, text, r = shrink(ap, sl, music_pb2, sections, text, r)
-        chk.fail(r, {'stream': stream, 'text': text, 'sections': sections})
+        # the shrunk input is what gets replayed: if shrinking ended inside the class the attribution applies to it
+        fnd = KNOWN_ACROSS if broken_across_bar(sections) and known_kind(r) else None
+        chk.fail(r, {'stream': stream, 'text': text, 'sections': sections}, finding=fnd)
     return r
 
 
@@ -1435,13 +1529,18 @@ def run(chk):
         'generator\'s renderer, validated only by the correspondence streams of this run',
         'rne53 as a model of IEEE-754 binary64 arithmetic (validated bit-exactly by every onset of this run)',
         'fractions.Fraction arithmetic and float(Fraction) read as exact rationals / one correct rounding',
-        'protobuf repeated-field semantics; extract_subsequence/concatenate_sequences modelled for notes only'])
+        'protobuf repeated-field semantics; the two models of expand_section_groups (notes only: Model/C04.lean; every '
+        'container: Model/C04Full.lean = C02\'s extract_subsequence model + C13\'s section table / concatenate_sequences '
+        'model) are each compared with the real expansion on every run; they are proved to give the same notes for R = id on '
+        'tunes whose notes are partitioned by their sections (abc_expand_models_agree), not for a general R'])
     chk.rule = ('tunebooks of 1-4 tunes rendered from a token grammar (every spelling of the module\'s key table x mode words, '
                 'L:1/1..1/64, meters incl. C, C|, none and ratios around 0.75, tempo forms n/d=r / multi-beat / bare r, <= 60 music '
                 'tokens with bar-scoped accidentals on small letter pools, octave marks, all length shorthands, broken rhythm 1-3 '
                 'marks, inline and body fields, simple / counted / one-sided / colon-only repeats, double bars) through the real '
                 'parser (text) and the Lean model (tokens), outputs incl. expand_section_groups diffed exactly; streams: supported, '
-                'mixed with each unsupported construct, unbalanced repeats, malformed token soup, exhaustive key table. '
+                'mixed with each unsupported construct, unbalanced repeats, malformed token soup, exhaustive key table, and a small '
+                'stream of broken-rhythm pairs ACROSS a bar token (the class of the open finding F-C04-6: oracle failures there '
+                'of the expansion kind are attributed to it, the model reproduces them). '
                 'non-trivial = distinct book whose model result is a value')
     g = Gen(chk.subrng('gen'), ap)
     trng = chk.subrng('text')
@@ -1450,8 +1549,8 @@ def run(chk):
         books.append(('corpus', secs['sections'], secs['text'], ['corpus:' + name]))
     for secs in key_books(g, chk.thorough):
         books.append(('keys', secs, book_text(secs, trng, plain=True), []))
-    for stream, n in (('supported', chk.n(1500, 30000)), ('mixed', chk.n(900, 15000)), ('repeat-errors', chk.n(500, 8000)),
-                      ('quirk', chk.n(1800, 30000))):
+    for stream, n in (('across-bar', chk.n(48, 600)), ('supported', chk.n(1500, 30000)), ('mixed', chk.n(900, 15000)),
+                      ('repeat-errors', chk.n(500, 8000)), ('quirk', chk.n(1800, 30000))):
         for _ in range(n):
             g.hist = set()
             secs, tags = make_book(g, stream)
@@ -1475,7 +1574,7 @@ def run(chk):
         if stream == 'corpus' and not any(t.startswith('corpus:') for t in tags):
             continue
         judge(chk, ap, sl, music_pb2, stream, secs, text, tags)
-        if len(chk.failures) > 20:
+        if sum(1 for f in chk.failures if f['finding'] is None) > 20:
             break
     chk.exhaustive = False
 
@@ -1505,4 +1604,6 @@ def replay(chk, obj):
     r, tags = o_book(ap, sl, music_pb2, obj['sections'], obj['text'])
     print('oracle tags:', tags)
     print('PROPERTY FAILS: %s' % r if r else 'property holds on this input')
+    if r and broken_across_bar(obj['sections']) and known_kind(r):
+        print('(an instance of the open known finding %s: broken-rhythm pair across a bar token)' % KNOWN_ACROSS)
     return 1 if r else 0
